@@ -26,7 +26,8 @@ POOL = ["alpha", "beta_two", "gamma", "delta_far_only", "epsilon", "shared_name"
 
 class HClass:
     def __init__(self, name: str, module: str) -> None:
-        self.name = name
+        self.name = name  # unique in the package (used for the CPython truth and for the parameter tags)
+        self.src_name = name  # as written in the source: private classes of different modules may share it
         self.module = module
         self.bases: list[HClass] = []
         self.methods: list[tuple[str, str]] = []  # (name, kind) kind: inst | static | prop | private | dunder
@@ -66,9 +67,13 @@ class HClass:
             lines.append("    pass\n")
         return "\n".join(lines)
 
-    def source(self, local_names: dict) -> str:
-        bases = ", ".join(local_names.get(b, b.name) for b in self.bases)
-        return f"class {self.name}{'(' + bases + ')' if bases else ''}:\n{self.body()}\n"
+    def source(self, local_names: dict, unique: bool = False) -> str:
+        """``unique``: under the package-wide unique names (one namespace, for the CPython truth)."""
+        if unique:
+            bases = ", ".join(b.name for b in self.bases)
+            return f"class {self.name}{'(' + bases + ')' if bases else ''}:\n{self.body()}\n"
+        bases = ", ".join(local_names.get(b, b.src_name) for b in self.bases)
+        return f"class {self.src_name}{'(' + bases + ')' if bases else ''}:\n{self.body()}\n"
 
 
 def build_hierarchy(rng, idx: int, allow_diamond: bool, n_cls: int):
@@ -126,11 +131,19 @@ def render_modules(classes: list[HClass]) -> dict:
     for mod, cls in by_mod.items():
         imports = []
         text = []
+        here = {c.src_name for c in cls}
+        local: dict = {}
         for c in cls:
             for b in c.bases:
-                if b.module != mod:
-                    imports.append(f"from pk.{b.module} import {b.name}")
-            text.append(c.source({}))
+                if b.module != mod and b not in local:
+                    if b.src_name in here or any(x.src_name == b.src_name for x in local):
+                        # a class of this name is defined (or already imported) here: the usual "import ... as" pattern
+                        local[b] = f"_Imp{len(local)}{b.name.strip('_')}"
+                        imports.append(f"from pk.{b.module} import {b.src_name} as {local[b]}")
+                    else:
+                        local[b] = b.src_name
+                        imports.append(f"from pk.{b.module} import {b.src_name}")
+            text.append(c.source(local))
         files[f"src/pk/{mod}.py"] = "".join(dict.fromkeys(ln + "\n" for ln in imports)) + "\n\n" + "\n".join(text)
     del order
     return files
@@ -148,7 +161,7 @@ def acyclic(classes: list[HClass]) -> bool:
 
 def cpython_truth(classes: list[HClass]):
     """Execute the hierarchy in one namespace; returns per public class the expected inlined members."""
-    src = "\n".join(c.source({}) for c in classes)
+    src = "\n".join(c.source({}, unique=True) for c in classes)
     ns: dict = {}
     exec(compile(src, "hier", "exec"), ns)  # noqa: S102 - generated by us
     truth = {}
@@ -203,6 +216,19 @@ def gen(tier: str, seed: int) -> list[Case]:
             allc += cl
         if not acyclic(allc):
             continue
+        # private classes of different modules that share their simple name (each module has its own "_Base")
+        privs = [c for c in allc if c.private]
+        rng.shuffle(privs)
+        for b in privs:  # ... in particular a private class named like its own private base of another module
+            for a in b.bases:
+                if a.private and a.module != b.module and b.src_name == b.name and rng.random() < 0.7 and not any(x.src_name == a.src_name for x in allc if x.module == b.module):
+                    b.src_name = a.src_name
+                    break
+        for a in privs[: len(privs) // 3]:
+            for b in privs:
+                if b.module != a.module and b.src_name == b.name and a.src_name == a.name and not any(x.src_name == a.src_name for x in allc if x.module == b.module):
+                    b.src_name = a.src_name
+                    break
         try:
             truth = cpython_truth(allc)
         except TypeError:
